@@ -27,10 +27,15 @@ class SimCrash(BaseException):
 
 
 class Sim:
-    def __init__(self, root: Path):
+    def __init__(self, root: Path, symlink: bool = False):
         self.root = root
         self.fasta = root / "g.fa"
         self.clock = 1
+        if symlink:
+            # the FASTA is reached through a symbolic link created (and stamped) now; the cache files live
+            # next to the link, rewrites go to the target
+            os.symlink("g.target.fa", self.fasta)
+            os.utime(self.fasta, (self.clock, self.clock), follow_symlinks=False)
         self.trace = []          # list of hops: ("op", pid, opname, file) | ("rewrite", tick) | ...
         self.tls = threading.local()
         self.crash_at = {}       # pid -> number of operations after which it crashes
